@@ -345,7 +345,7 @@ def main():
         ok = False
     out = Path(os.environ.get('FORMULAS_OUT', OUT))
     if not out.exists() or out.read_text() != text:
-        out.write_text(text)
+        (print('CHANGED', out.name) if os.environ.get('REGEN_DRY') else out.write_text(text))
     return ok
 
 
